@@ -82,6 +82,19 @@ func C01(tier string) {
 		chains = chainWorkload(run.SeedV, tier, links, 0, 0, 3)
 		cfgs = StdCfgs(true)
 	}
+	if tier == "triage2" {
+		// development aid: every ordered pair of links that are not single-link known findings
+		known := run.KnownSigs()
+		var ok []string
+		for _, l := range links {
+			if !known[l] {
+				ok = append(ok, l)
+			}
+		}
+		chains = chainWorkload(run.SeedV, tier, ok, len(ok)*len(ok), 0, 3)
+		all := StdCfgs(false)
+		cfgs = []ChainCfg{all[0], all[3], all[4], all[6]}
+	}
 	opts := ChainOpts{Cfgs: cfgs, Repeat: 1}
 	batches := toBatches(chains, 45)
 	outs := ProcessBatches(run, "b", batches, opts)
